@@ -6,6 +6,9 @@
 #include "libphysica/List_Manipulations.hpp"
 #include "libphysica/Statistics.hpp"
 
+#include <algorithm>
+#include <functional>
+
 using namespace libphysica;
 
 namespace hz
@@ -165,6 +168,37 @@ std::string handle(const std::string& op, Args& a)
 		}
 		a.end();
 		return run([&](Out& o) { auto r = Weighted_Average(d); o << r[0] << r[1]; });
+	}
+	if(op == "c19.dpcmp")	// DataPoint ordering operators
+	{
+		double v1 = a.dbl(), w1 = a.dbl(), v2 = a.dbl(), w2 = a.dbl();
+		a.end();
+		return run([&](Out& o) {
+			DataPoint x(v1, w1), y(v2, w2);
+			o << (int) (x < y) << (int) (x > y) << (int) (x == y);
+		});
+	}
+	if(op == "c19.dpsort")	 // std::sort with operator< (as Perform_KDE), with operator> (std::greater), std::count with operator==
+	{
+		size_t n = a.u64();
+		std::vector<DataPoint> d;
+		for(size_t i = 0; i < n; i++)
+		{
+			double v = a.dbl(), w = a.dbl();
+			d.push_back(DataPoint(v, w));
+		}
+		a.end();
+		return run([&](Out& o) {
+			std::vector<DataPoint> asc = d, desc = d;
+			std::sort(asc.begin(), asc.end());
+			std::sort(desc.begin(), desc.end(), std::greater<DataPoint>());
+			o << n;
+			for(auto& p : asc)
+				o << p.value << p.weight;
+			for(auto& p : desc)
+				o << p.value << p.weight;
+			o << (n == 0 ? 0 : (long long) std::count(d.begin(), d.end(), d[0]));
+		});
 	}
 	throw BadOp();
 }
